@@ -20,6 +20,9 @@ type Style struct {
 	TightColon    bool   // no blank after ':' and inside annotation braces
 	ExtraBlank    bool   // blank lines / trailing blanks
 	Mixed         Coin   // when set, each site decides separately with probability 1/2 among the enabled features
+	// OneLine writes the whole schema on one line; only note-only annotations in the /* */ form
+	// are possible then (a rule needs its node alone on the line), rules are not written.
+	OneLine bool
 }
 
 type renderer struct {
@@ -41,6 +44,11 @@ func (r *renderer) on(enabled bool) bool {
 
 // Render writes the schema text of a node tree and records byte positions in the nodes.
 func (st Style) Render(root *Node) string {
+	if st.OneLine {
+		var sb strings.Builder
+		oneLine(&sb, root)
+		return sb.String()
+	}
 	r := &renderer{st: st, nl: st.NL, ind: st.Indent}
 	if r.nl == "" {
 		r.nl = "\n"
@@ -272,3 +280,62 @@ func RuleValueText(rule *Rule, quoteNames bool) string {
 
 // Canonical renders in the house style.
 func Canonical(root *Node) string { return Style{}.Render(root) }
+
+// oneLine renders a node tree on a single line with note-only annotations.
+func oneLine(sb *strings.Builder, n *Node) {
+	note := func() {
+		if n.Note != "" {
+			sb.WriteString(" /* " + n.Note + " */")
+		}
+	}
+	n.Pos = sb.Len()
+	switch n.Kind {
+	case KObject:
+		sb.WriteString("{")
+		if len(n.Props) > 0 {
+			note()
+		}
+		for i, p := range n.Props {
+			if i > 0 {
+				sb.WriteString(",")
+			}
+			sb.WriteString(" ")
+			p.Node.KeyPos = sb.Len()
+			if p.Shortcut {
+				sb.WriteString(p.Key)
+			} else {
+				sb.WriteString(Quote(p.Key))
+			}
+			sb.WriteString(": ")
+			oneLine(sb, p.Node)
+		}
+		if len(n.Props) > 0 {
+			sb.WriteString(" ")
+		}
+		sb.WriteString("}")
+		if len(n.Props) == 0 {
+			note()
+		}
+	case KArray:
+		sb.WriteString("[")
+		if len(n.Items) > 0 {
+			note()
+		}
+		for i, it := range n.Items {
+			if i > 0 {
+				sb.WriteString(", ")
+			}
+			oneLine(sb, it)
+		}
+		sb.WriteString("]")
+		if len(n.Items) == 0 {
+			note()
+		}
+	case KRef:
+		sb.WriteString(strings.Join(n.Refs, " | "))
+		note()
+	default:
+		sb.WriteString(n.Lit)
+		note()
+	}
+}
